@@ -136,6 +136,13 @@ CLAIMED = {
         "Trusted: fork() of a zygote that imported einx without calling it as stand-in for a fresh interpreter; digests compare floats with rtol 1e-8.",
         "DESIGN.md §4 C06, §3 S5",
     ),
+    "C10": (
+        "schedule-controlled concurrency testing: Hypothesis-drawn thread programs and interleavings executed by a deterministic sys.settrace scheduler; linearizability check against a sequential model",
+        "Generated-input search over thread programs and schedules (pre-emption at source-line granularity inside einx's registry, API, cache, tracing-stack and compile entry code, cooperative lock); "
+        "every run's outcomes and final registry state must be reproducible by some sequential order of the steps. Sampling of interleavings, not enumeration. Exploration only.",
+        "Trusted: the scheduler einxverif/sched.py (a stall is inconclusive), the sequential model in props/c10.py. No claim about pre-emption inside C code, liveness or free-threaded builds.",
+        "DESIGN.md §4 C10, §3 S6",
+    ),
 }
 NOT_YET = "check not built yet in this round (see DESIGN.md §8 build order); the property has an executable oracle and will be claimed once its check is registered"
 
@@ -154,6 +161,7 @@ def main():
             "technique": tech,
         })
     na = [{"property_id": pid, "reason": NOT_YET} for pid in sorted(TITLES) if pid not in CLAIMED]
+    assert not na, na
     m = {
         "version": 1,
         "setup_cmd": "./setup.sh",
